@@ -85,7 +85,7 @@ def run(ctx: Ctx):
                                "filter-op": "R-C01-5", "matrix-cover": "R-C01-5", "c2n": "R-C01-5"})
     nbk.check_odometer(ctx, "R-C01-5")
     ilp.check_decoding(ctx, F, {"threshold": "R-C01-4", "same-ids": "R-C01-4", "slots": "R-C01-4", "own-unit": "R-C01-4",
-                                "null-decode": "R-C01-2", "ua-built": "R-C01-4", "result": "R-C01-4", "shared-decoding": "R-C01-4"}, "Alignment")
+                                "null-decode": "R-C01-2", "ua-built": "R-C01-4", "all-emitted": "R-C01-4", "result": "R-C01-4", "shared-decoding": "R-C01-4"}, "Alignment")
     n = rule_nullable_index(ctx, "R-C01-6", [FN], "alignment of unlabelled units")
     if n < 1:
         ctx.undecided("R-C01-6", ctx.model.functions[FN], None, "no label lookup found on the paths of get_best_alignment (anchor vanished)",
